@@ -23,6 +23,9 @@ import (
 //go:linkname dstSimSeed runtime.dstSimSeed
 func dstSimSeed(seed uint64, on bool)
 
+//go:linkname dstSimEnter runtime.dstSimEnter
+func dstSimEnter()
+
 // ResetFuncs are run before every simulated run (process-global library state).
 var ResetFuncs []func()
 
@@ -435,6 +438,7 @@ func Run(plan *Plan, opts RunOpts, body func(e *Env)) (res *Result) {
 			}
 		}()
 		synctest.RunRaw(func() {
+			dstSimEnter()
 			e.start = time.Now()
 			// process-global library state is reset inside the bubble: its package-level
 			// locks then get channels that belong to this bubble
